@@ -157,15 +157,29 @@ def check(ctx):
     ctx.rule("R6", "reminders: decode of every reminder type byte 0..255 does not raise; to_string total; Reminder.__str__ total over the sign of days")
 
     # ---- R1: collect MUST keys ----------------------------------------------------------
+    # (a) the connect tail (pack identity read right after the tables are loaded): constant-key subscripts in the
+    #     connect functions and in the methods of their own class they call
     must = {}  # key -> (function, line, reason)
     cond = set()
     dyn = 0
     n_sub = 0
-    for q in CONSTRUCTION:
+    from ..callgraph import callgraph as _callgraph
+    cg = _callgraph(repo)
+    tail = []
+    for q in ("GeckoAsyncSpa._connect", "GeckoSpa._final_connect"):
         fi = repo.func(q, required=False)
         if fi is None:
             ctx.error(f"construction-path anchor {q} vanished")
             continue
+        seen_q, stack = {fi.qual}, [fi]
+        while stack:
+            f0 = stack.pop()
+            tail.append(f0)
+            for callee in cg.callees(f0) if hasattr(cg, "callees") else []:
+                if callee.cls is not None and fi.cls is not None and callee.cls.short == fi.cls.short and callee.qual not in seen_q:
+                    seen_q.add(callee.qual)
+                    stack.append(callee)
+    for fi in tail:
         for n, k, guarded, text in accessor_subscripts(repo, fi):
             n_sub += 1
             if k is None:
@@ -175,8 +189,15 @@ def check(ctx):
                 cond.add(k)
             else:
                 must.setdefault(k, (fi, n.lineno, f"`{text}` in {fi.qual} (unguarded subscript)"))
-    ctx.floor("R1", "accessor subscripts on construction paths", n_sub, 25)
+    ctx.floor("R1", "accessor subscripts on the connect tail", n_sub, 8)
     ctx.count("R1:data_driven_subscripts (discharged by C18.R4 / C12.R4)", dyn)
+    # (b) the facade: built by its own constructor on a model of every shipped (config, log) pair (vlib/buildmodel.py)
+    from ..buildmodel import constructions as _constructions
+    built, bstats, relevant = _constructions(repo, T, ("first", "last", "mixed") if ctx.tier == "thorough" else ("mixed", "first"), workers=12)
+    for k_, v_ in bstats.items():
+        ctx.count(f"R1:facade constructions:{k_}", v_)
+    ctx.floor("R1", "facade constructions interpreted", bstats["runs"], 100)
+    ctx.floor("R1", "item names the constructions look up", len(relevant), 40)
     # R2
     for cname in ("GeckoWaterHeater",):
         for attr, key, m, n in conditional_attrs(repo, cname):
@@ -256,7 +277,7 @@ def check(ctx):
     ctx.count("R1:required_keys", len(must))
     ctx.extra["required_keys"] = {k: v[2] for k, v in sorted(must.items())}
     ctx.extra["conditional_keys"] = sorted(cond)
-    ctx.floor("R1", "required keys", len(must), 6)
+    ctx.floor("R1", "required keys of the connect tail", len(must), 4)
 
     # home kind of each key
     home = {}
@@ -270,34 +291,44 @@ def check(ctx):
     has_temp = {stem: any(i.ctor == "GeckoTempStructAccessor" for i in m.items) for stem, m in T.modules.items()}
     missing_by_module = collections.defaultdict(lambda: collections.defaultdict(int))
     n_bad = 0
+    pair_fail = {}     # (cfg stem, log stem) -> [reasons]
     for pack, cfg, log in combos:
         ks = keysets[cfg.stem] | keysets[log.stem]
-        bad = False
+        why_ = []
         for k in must:
             if k not in ks:
-                mod = cfg.stem if home[k] == "cfg" else log.stem
-                missing_by_module[mod][k] += 1
-                bad = True
+                why_.append(f"{k} missing: {must[k][2]}")
         if (has_temp[cfg.stem] or has_temp[log.stem]) and units_key not in ks and units_key not in must:
-            missing_by_module[cfg.stem][units_key] += 1
-            bad = True
-        n_bad += bad
+            why_.append(f"{units_key} missing: temperature items need the units item")
+        why_ += built.get((cfg.stem, log.stem), [])
+        if why_:
+            pair_fail[(cfg.stem, log.stem)] = why_
+        n_bad += bool(why_)
     ctx.count("R1:combinations_checked", len(combos))
     ctx.count("R1:combinations_whose_facade_cannot_be_built", n_bad)
+    uses = collections.defaultdict(set)
+    for _p, cfg, log in combos:
+        uses[cfg.stem].add((cfg.stem, log.stem))
+        uses[log.stem].add((cfg.stem, log.stem))
+    dead = {mod for mod, ps in uses.items() if ps and all(p_ in pair_fail for p_ in ps)}
     for mod in sorted(T.modules):
         if T.modules[mod].kind == "pack":
             continue
-        miss = missing_by_module.get(mod)
-        if miss:
-            n_comb = max(miss.values())
-            why = "; ".join(f"{k}: {must[k][2] if k in must else 'temperature items need the units item'}" for k in sorted(miss))
-            # keyed by the table module (the input that fails): the set of missing items is in the message
+        if mod in dead:
+            ps = sorted(uses[mod])
+            reasons = sorted({r for p_ in ps for r in pair_fail[p_]})
+            # keyed by the table module (the input that fails): the reasons are in the message
             ctx.ob("R1", f"facade-unbuildable::{mod}", False,
-                   f"every combination using {mod} ({n_comb} shipped combinations) lacks required item(s) {sorted(miss)}: facade construction / a read-only member raises KeyError or AttributeError [{why}]",
-                   T.modules[mod].path, detail={"module": mod, "missing": dict(miss)})
+                   f"every shipped combination using {mod} ({len(ps)} config/log pairs) fails to build: " + "; ".join(reasons[:6]),
+                   T.modules[mod].path, detail={"module": mod, "reasons": reasons[:10]})
         else:
             ctx.ob("R1", f"facade-buildable::{mod}", True, "",
-                   sample={"rule": "R1", "module": mod, "required_keys_present": sorted(must)} if mod.endswith("-50") else None)
+                   sample={"rule": "R1", "module": mod, "pairs": len(uses.get(mod, ()))} if mod.endswith("-50") else None)
+    for (cs, ls), why_ in sorted(pair_fail.items()):
+        if cs in dead or ls in dead:
+            continue
+        ctx.ob("R1", f"facade-unbuildable::{cs}+{ls}", False,
+               f"the shipped combination ({cs}, {ls}) fails to build: " + "; ".join(why_[:4]), T.modules[ls].path, detail={"pair": [cs, ls], "reasons": why_[:10]})
 
     # ---- R4 label lookups -----------------------------------------------------------------
     gv = repo.own_method("GeckoStructAccessor", "_get_value")
